@@ -356,6 +356,18 @@ func C02(p *core.Program, r *core.Report) {
 	r.Count("rule guards", len(guards))
 	r.Min("rule guards", 15)
 	checkEndpointRegexps(p, r)
+	checkFreeNumberSearch(p, r)
+	// a bundle handed out by the builder does not share its block list with the builder (which may be used again:
+	// a further block added to the builder would be sorted into the earlier bundle's backing array)
+	bb := p.Func(bp7, "BundleBuilder", "Build")
+	for _, nb := range core.CallsTo(bb, bp7+".NewBundle") {
+		blocks := core.Arg(nb, 1)
+		aliased := sharesBacking(blocks, func(v ssa.Value) bool {
+			u, ok := v.(*ssa.UnOp)
+			return ok && u.Op == token.MUL && core.IsField(u.X, bp7, "BundleBuilder", "canonicals")
+		}, 0)
+		r.Check(!aliased, "builder/"+fname(bb)+"/bundle-owns-its-blocks", "the block list of a built bundle is a fresh copy, not the builder's own slice: using the builder again must not change a bundle it already returned", p.Pos(nb.Pos()), "", "NewBundle is given bldr.canonicals itself: Builder()...Build() followed by .HopCountBlock(5).Build() re-sorts the shared backing array and leaves the first bundle without its payload block in last place")
+	}
 	// IsExceeded is Count > Limit
 	ie := p.Func(bp7, "HopCountBlock", "IsExceeded")
 	okIE := false
@@ -611,4 +623,163 @@ func checkEndpointRegexps(p *core.Program, r *core.Report) {
 	}
 	r.Count("endpoint regexps", nre)
 	r.Min("endpoint regexps", 3)
+}
+
+// checkFreeNumberSearch: AddExtensionBlock gives a new block the lowest block
+// number no other block uses. "No other block uses it" needs a complete pass
+// over all blocks for the final candidate: whenever the candidate changes,
+// the comparison has to start again from the first block. A search that bumps
+// the candidate in the middle of a pass and simply goes on is right only for
+// blocks in ascending number order — the parser accepts any order (payload
+// last), so a relayed foreign bundle would get a duplicate number.
+func checkFreeNumberSearch(p *core.Program, r *core.Report) {
+	fn := p.Func(bp7, "Bundle", "AddExtensionBlock")
+	loops := core.Loops(fn)
+	n := 0
+	var bad []string
+	core.EachInstr(fn, func(in ssa.Instruction) {
+		cmp, ok := in.(*ssa.BinOp)
+		if !ok || cmp.Op != token.EQL {
+			return
+		}
+		// candidate == <some block's number>
+		var cand ssa.Value
+		switch {
+		case isBlockNumberElem(cmp.Y):
+			cand = cmp.X
+		case isBlockNumberElem(cmp.X):
+			cand = cmp.Y
+		default:
+			return
+		}
+		scan := core.InnermostLoop(loops, cmp.Block())
+		if scan == nil {
+			return
+		}
+		n++
+		// every change of the candidate
+		core.EachInstr(fn, func(i2 ssa.Instruction) {
+			inc, ok := i2.(*ssa.BinOp)
+			if !ok || inc.Op != token.ADD {
+				return
+			}
+			phi, isPhi := inc.X.(*ssa.Phi)
+			if !isPhi || !feeds(inc, phi) || !sameVar(cand, phi) {
+				return
+			}
+			if scan.Blocks[inc.Block()] && reachesWithinLoop(inc.Block(), scan) {
+				bad = append(bad, p.Pos(inc.Pos()))
+			}
+		})
+	})
+	r.Count("number comparisons in AddExtensionBlock", n)
+	r.Min("number comparisons in AddExtensionBlock", 1)
+	r.Check(len(bad) == 0, "unique-block-numbers/"+fname(fn)+"/search-restarts", "the search for a free block number compares the final candidate with every block: after the candidate was changed the pass over the blocks starts again (blocks of a parsed bundle may be in any order)", p.Pos(fn.Pos()), "", "the candidate is incremented at "+strings.Join(bad, ", ")+" inside the pass over the blocks and the pass goes on: blocks already visited are never compared with the new candidate; with numbers 3,2,1 on the wire the new block gets number 3 again")
+}
+
+// isBlockNumberElem: v is x.BlockNumber of some canonical block, or an element of a slice of numbers collected from them.
+func isBlockNumberElem(v ssa.Value) bool {
+	if pathEndsWith(v, "BlockNumber") {
+		return true
+	}
+	if u, ok := v.(*ssa.UnOp); ok && u.Op == token.MUL {
+		if ia, ok := u.X.(*ssa.IndexAddr); ok {
+			return core.DependsOn(ia.X, func(x ssa.Value) bool { return pathEndsWith(x, "BlockNumber") })
+		}
+	}
+	return false
+}
+
+func feeds(v ssa.Value, phi *ssa.Phi) bool {
+	for _, e := range phi.Edges {
+		if e == v {
+			return true
+		}
+		if p2, ok := e.(*ssa.Phi); ok {
+			for _, e2 := range p2.Edges {
+				if e2 == v {
+					return true
+				}
+			}
+		}
+	}
+	return false
+}
+
+// sameVar: a is phi or a phi that merges phi (the same source variable at another program point).
+func sameVar(a ssa.Value, phi *ssa.Phi) bool {
+	if a == ssa.Value(phi) {
+		return true
+	}
+	seen := map[ssa.Value]bool{}
+	var walk func(v ssa.Value) bool
+	walk = func(v ssa.Value) bool {
+		if v == ssa.Value(phi) {
+			return true
+		}
+		if seen[v] {
+			return false
+		}
+		seen[v] = true
+		if p2, ok := v.(*ssa.Phi); ok {
+			for _, e := range p2.Edges {
+				if walk(e) {
+					return true
+				}
+			}
+		}
+		if b, ok := v.(*ssa.BinOp); ok && b.Op == token.ADD {
+			return walk(b.X)
+		}
+		return false
+	}
+	if walk(a) {
+		return true
+	}
+	// or phi merges a
+	seen = map[ssa.Value]bool{}
+	for _, e := range phi.Edges {
+		if e == a {
+			return true
+		}
+	}
+	return false
+}
+
+// sharesBacking: v can be a slice with the same backing array as a value
+// satisfying src — the value itself, a re-slice of it, a phi of such, or the
+// result of append(<such>, ...) (which reuses the array while capacity lasts).
+func sharesBacking(v ssa.Value, src func(ssa.Value) bool, depth int) bool {
+	if depth > 8 || v == nil {
+		return false
+	}
+	if src(v) {
+		return true
+	}
+	switch x := v.(type) {
+	case *ssa.Slice:
+		return sharesBacking(x.X, src, depth+1)
+	case *ssa.ChangeType:
+		return sharesBacking(x.X, src, depth+1)
+	case *ssa.Phi:
+		for _, e := range x.Edges {
+			if sharesBacking(e, src, depth+1) {
+				return true
+			}
+		}
+	case *ssa.Call:
+		if b, ok := x.Common().Value.(*ssa.Builtin); ok && b.Name() == "append" {
+			return sharesBacking(x.Common().Args[0], src, depth+1)
+		}
+	case *ssa.UnOp:
+		// load of a local that was assigned such a value
+		if a, ok := x.X.(*ssa.Alloc); ok && x.Op == token.MUL {
+			for _, ref := range *a.Referrers() {
+				if st, ok := ref.(*ssa.Store); ok && st.Addr == ssa.Value(a) && sharesBacking(st.Val, src, depth+1) {
+					return true
+				}
+			}
+		}
+	}
+	return false
 }
